@@ -52,6 +52,12 @@ Definition passes_schema_b (s : spec) : bool := validate builtin (doc_of_spec s)
 Definition c18_body_b (s : spec) : bool :=
   negb (lib_ok_b s && in_go_ranges_b s && timeouts_ok_b s) || passes_schema_b s.
 
+(* the same with the three-valued validator: no claim where the verdict depends on a part of the schema that has left
+   the modelled fragment (the judge's model-side search when the proof breaks after a schema change) *)
+Definition c18_body3_b (s : spec) : bool :=
+  negb (lib_ok_b s && in_go_ranges_b s && timeouts_ok_b s) ||
+  match validate3 builtin (doc_of_spec s) with Some false => false | _ => true end.
+
 (* the witness for the timeout proviso: a library-valid Spec with a hook timeout of -1 *)
 Definition neg_timeout_spec : spec :=
   mkSpec "1.0.0" "vendor.com/class" []
